@@ -21,8 +21,9 @@ ValSeqs == {<<P("non_empty")>>, <<P("sorted")>>, <<P("short")>>}
 CustomVals == {<<[k |-> "custom", b |-> 0, fn |-> "short", p |-> <<>>, sp |-> "lit"]>>}
 
 \* (derive(Into) on the generic twin works since fix c0c4844)
+\* "Cow<[i32]>" is the lifetime-generic newtype Nt<'a>(Cow<'a, [i32]>) (used at 'static): lifetimes in every generated impl
 StdTraitsOf(ty) == <<"Debug", "Clone", "PartialEq", "Eq", "PartialOrd", "Ord", "Hash",
-               "AsRef", "Deref", "Borrow", "Into", "Default", "IntoIterator", "Serialize", "Deserialize">>
+               "AsRef", "Deref", "Borrow", "Into", "Default">> \o (IF ty = "Cow<[i32]>" THEN <<>> ELSE <<"IntoIterator">>) \o <<"Serialize", "Deserialize">>
 DeclC(conv, ty, san, vmode, val, dflt) ==
   [fam |-> "any", ty |-> ty, san |-> san, vmode |-> vmode, val |-> val,
    traits |-> StdTraitsOf(ty) \o (IF vmode = "none" /\ conv = "From" THEN <<"From">> ELSE <<"TryFrom">>),
@@ -52,7 +53,7 @@ DeclSpace ==
     \cup {Decl(ty, san, "none", <<>>, dflt) : san \in SanSeqs, dflt \in Defaults(ty)}
     \cup {DeclC("TryFrom", ty, san, "none", <<>>, dflt) : san \in SanSeqs, dflt \in Defaults(ty)}
     \cup {Decl(ty, san, "custom", val, dflt) : san \in SanSeqs, val \in CustomVals, dflt \in Defaults(ty)}
-  : ty \in {"Vec<i32>", "Vec<T>"}}
+  : ty \in {"Vec<i32>", "Vec<T>", "Cow<[i32]>"}}
 
 MCDeclSeq == SetToSeq(DeclSpace)
 
